@@ -116,8 +116,11 @@ fn scenario(op: &Op, fl: Fl, blob_len: usize) -> (Program, usize) {
         // the SAME process carries on after the faulty call (faults are over by then): whatever
         // the failed call left behind in the process must not leak into later calls
         Step { op: Op::Write(WriteSpec::simple(Some(3), 2)), fl },
+        Step { op: Op::Meta { key: 3 }, fl },
         Step { op: Op::Remove { key: 3 }, fl: Fl::Sync },
+        Step { op: Op::Meta { key: 3 }, fl: Fl::Sync },
         Step { op: Op::Write(WriteSpec::simple(Some(3), 1)), fl: if fl == Fl::Sync { Fl::Async } else { Fl::Sync } },
+        Step { op: Op::Meta { key: 3 }, fl },
         Step { op: Op::Meta { key: 1 }, fl },
     ];
     (Program { keys, blobs, steps }, 2)
@@ -336,6 +339,28 @@ impl Engine for C13 {
                         out.push(Case { prog: prog.clone(), victim, faults: vec![Fault { gate: i, kind: FaultKind::Errno(applicable(g, if i % 2 == 0 { EIO } else { ENOSPC })) }], tiny_fs_kib: None });
                         if g.is_write_class() && g.count().unwrap_or(0) >= 2 {
                             out.push(Case { prog: prog.clone(), victim, faults: vec![Fault { gate: i, kind: FaultKind::ShortThenFail(20000) }], tiny_fs_kib: None });
+                        }
+                    }
+                }
+            }
+        }
+        // the victim's key has a bucket of more than 1 MiB (three records of ~390 KB): whatever
+        // an implementation does to big buckets when it appends, a failing call keeps the old entry
+        for fl in [Fl::Sync, Fl::Async] {
+            for vop in [Op::Write(WriteSpec::simple(Some(0), 0)), Op::Remove { key: 0 }] {
+                let (mut prog, _) = scenario(&vop, fl, 50);
+                for i in 0..3usize {
+                    let mut big = WriteSpec::simple(Some(0), 1 + i % 2);
+                    big.entry = WEntry::Opts;
+                    big.raw_metadata = Some(crate::gen::huge_raw_meta(100_000 + i, i as u8));
+                    prog.steps.insert(2 + i, Step { op: Op::Write(big), fl: if i % 2 == 0 { Fl::Sync } else { Fl::Async } });
+                }
+                let victim = 5;
+                if let Ok(gates) = trace_gates(&prog, victim) {
+                    for (i, g) in gates.iter().enumerate() {
+                        out.push(Case { prog: prog.clone(), victim, faults: vec![Fault { gate: i, kind: FaultKind::Errno(applicable(g, if i % 2 == 0 { EIO } else { ENOSPC })) }], tiny_fs_kib: None });
+                        if g.is_write_class() && g.count().unwrap_or(0) >= 2 {
+                            out.push(Case { prog: prog.clone(), victim, faults: vec![Fault { gate: i, kind: FaultKind::ShortThenFail(7) }], tiny_fs_kib: None });
                         }
                     }
                 }
